@@ -95,6 +95,15 @@ CHECKS["C06"] = ("exploration",
     "count tables hunt the rare tie between iterations; L2 must be array-equal to KMeans.",
     "DESIGN.md §3 C06")
 
+CHECKS["C07"] = ("exploration",
+    "runtime invariant monitors: post-fit/post-predict size, label, centre, n_iter_ and nearest-centre checks; "
+    "invariants at hooks on _switch_clusters, the association functions (counters == histogram) and a logical "
+    "pass counter on the association loop (bounded progress)",
+    "Every residue n mod k is generated for k 1-9 on six data classes, both strategies, both initialisations and "
+    "five batch sizes; hooks check the internal bookkeeping on every call; strategy 'gain' defects of the unchanged "
+    "tree are known findings keyed by mechanism, any other size violation is reported.",
+    "DESIGN.md §3 C07")
+
 PENDING = {}
 
 
